@@ -48,6 +48,20 @@ def obligations_for(pid):
     return ob.get(pid, {"theorems": [], "partial": [], "examples": []})
 
 
+def count_examples(pid):
+    """number of `example` declarations (concrete instances of the hypotheses / computed instances of the
+    statements) in the property's theorem modules"""
+    ob = obligations_for(pid)
+    n = 0
+    for m in ob.get("modules") or [f"Qwt.Props.{pid}"]:
+        try:
+            with open(os.path.join(LEAN, m.replace(".", "/") + ".lean")) as f:
+                n += sum(1 for l in f if l.startswith("example") or l.startswith("private example"))
+        except OSError:
+            pass
+    return n
+
+
 def step_leanchecker(pid, log):
     """thorough tier: re-check the compiled theorem modules with the independent checker"""
     ob = obligations_for(pid)
